@@ -691,7 +691,88 @@ def aliasing_job(job):
     return part
 
 
+def held_object_job(job):
+    """ONE Image object kept by the caller across a history: written, changed in place (clear(), a fill from another
+    image), looked at as a PIL image (what making a thumbnail does), written again ...  After every write the tile
+    read back is the image as it is at that moment (absent if it is entirely undefined then).  Every sequence of
+    the alphabet up to the given length that ends in a write is run on a fresh object and a fresh directory."""
+    from toasty.image import Image, ImageMode
+    from toasty.pyramid import PyramidIO, Pos
+
+    mode, fmt, depth = job
+    part = Part()
+    M = ImageMode[mode]
+    A, B, _partial, _undef = tile_arrays(mode)
+    pos = Pos(1, 0, 1)
+    ops = ["write", "clear"] + (["fill_B", "fill_A_part", "update_B_part"] if mode != "RGB" else []) + (["aspil"] if mode in ("RGB", "RGBA") else ["asarray"])
+    seqs = []
+    for n in range(1, depth + 1):
+        for t in itertools.product(ops, repeat=n):
+            if t[-1] == "write" and any(o != "write" for o in t):
+                seqs.append(t)
+    with scratch("c15h") as d:
+        for t in seqs:
+            hist = list(t)
+            cfg = {"mode": mode, "format": fmt, "held_object_history": hist}
+            root = os.path.join(d, "t")
+            shutil.rmtree(root, ignore_errors=True)
+            pio = PyramidIO(root, default_format=fmt)
+            held = Image.from_array(A.copy())
+            ref = A.copy()
+            part.case(nontrivial=True)
+            part.executions += 1
+            try:
+                with quiet():
+                    for k, op in enumerate(hist):
+                        if op == "clear":
+                            held.clear()
+                            ref = np.zeros_like(ref) if ref.dtype.kind != "f" else np.full_like(ref, np.nan)
+                        elif op == "fill_B":
+                            Image.from_array(B.copy()).fill_into_maskable_buffer(held, slice(None), slice(None), slice(None), slice(None))
+                            ref = B.copy()
+                        elif op == "fill_A_part":
+                            Image.from_array(A[:64, :32].copy()).fill_into_maskable_buffer(held, slice(None), slice(None), slice(10, 74), slice(5, 37))
+                            # (a fill leaves everything outside the addressed rectangle undefined)
+                            ref = np.zeros_like(ref) if ref.dtype.kind != "f" else np.full_like(ref, np.nan)
+                            ref[10:74, 5:37] = A[:64, :32]
+                        elif op == "update_B_part":
+                            Image.from_array(B[:64, :32].copy()).update_into_maskable_buffer(held, slice(None), slice(None), slice(100, 164), slice(50, 82))
+                            ref = ref.copy()
+                            ref[100:164, 50:82] = B[:64, :32]
+                        elif op == "aspil":
+                            held.aspil()
+                        elif op == "asarray":
+                            held.asarray()
+                        else:
+                            pio.write_image(pos, held)
+                            want = None if all_undefined(mode, ref) else ref
+                            got = pio.read_image(pos, default="none")
+                            if want is None:
+                                if got is not None:
+                                    part.violation("persistence/held-object/all-undefined-tile-stored/mode=%s/format=%s" % (mode, fmt), "%r: step %d: the image is entirely undefined when written, yet a tile is stored" % (cfg, k), cfg)
+                                    break
+                            elif got is None:
+                                part.violation("persistence/held-object/tile-missing/mode=%s/format=%s" % (mode, fmt), "%r: step %d: no tile after writing a partly defined image" % (cfg, k), cfg)
+                                break
+                            elif not same(np.asarray(got.asarray()), want):
+                                g = np.asarray(got.asarray())
+                                nd = int((g != want).sum()) if g.shape == want.shape else -1
+                                part.violation("persistence/held-object/readback-differs/mode=%s/format=%s" % (mode, fmt), "%r: step %d: the tile read back is not the image as it was when written (%d differing values): an earlier state of the object was stored" % (cfg, k, nd), cfg)
+                                break
+            except Exception as e:
+                part.violation("persistence/held-object/raises:%s/mode=%s/format=%s" % (type(e).__name__, mode, fmt), "%r: %r" % (cfg, e), cfg)
+    part.count("held_object_histories", len(seqs))
+    part.sample({"mode": mode, "format": fmt, "held_object_history": list(seqs[-1])})
+    return part
+
+
 def _job(j):
+    if j[0] == "leafwrites":
+        from vt import stages
+
+        return stages.explore_to_part(j[1], PROP)
+    if j[0] == "held":
+        return held_object_job(j[1:])
     if j[0] == "bufhist":
         return buffer_history_job(j[1], j[2])
     if j[0] == "aliasing":
@@ -708,7 +789,9 @@ def run(tier, seed):
         "A: mode x indexer kind x all 2^6 source x 2^6 destination defined/undefined patterns (fill, update, clear, is_completely_masked); every sequence of up to %d "
         "operations {clear, fill defined/undefined, update partly defined/undefined} on ONE buffer object with is_completely_masked and write_image judged after each step. "
         "B: breadth-first search over operation histories (12-op alphabet) to depth %d on a PyramidIO directory per (mode, format, scheme), "
-        "states = distinct reference tile states, deduplicated; transitions = (state, op) steps executed on the real directory"
+        "states = distinct reference tile states, deduplicated; transitions = (state, op) steps executed on the real directory. "
+        "C: every sequence up to that length + 1 of {write, clear, fill, partial fill, view as PIL / array} on ONE caller-held Image object (colour and floating-point modes), the tile read back after every write. "
+        "D: stateful exploration of every interleaving of 2-3 worker processes of one visit_leaves call storing defined and entirely undefined tiles of one pyramid (tile reads/writes, removals and file creations are scheduling points)"
     ) % (maxdepth, maxdepth)
     rep.assumptions = [
         "format capability table fixed from the formats' definitions: npy all modes; FITS all but F16x3 (and RGB/RGBA); PNG RGB/RGBA only",
@@ -730,6 +813,21 @@ def run(tier, seed):
     for m in MODES:
         if m != "RGB":
             jobs.append(("aliasing", m, "npy"))
+    for m in ("RGB", "RGBA", "F32", "F64", "F16x3"):
+        for f in FORMATS[m]:
+            jobs.append(("held", m, f, 4 if tier == "quick" else 5))
+    # D: across processes - workers of one visit_leaves call storing the tiles of one pyramid, some entirely undefined
+    # (every interleaving of their tile I/O, removals and file creations)
+    from vt import stages
+
+    lw = [
+        stages.LeafWrites(W=2, masked=((1, 1, 0),), seed=seed),
+        stages.LeafWrites(W=2, masked=((1, 1, 0), (1, 0, 1)), stale=((1, 1, 0),), seed=seed),
+        stages.LeafWrites(W=2, masked=((1, 0, 0), (1, 1, 0)), scheme="LXY", fmt="npy", seed=seed),
+    ]
+    if tier == "thorough":
+        lw += [stages.LeafWrites(W=3, masked=((1, 1, 0), (1, 1, 1)), seed=seed), stages.LeafWrites(W=2, depth=2, masked=((2, 1, 0), (2, 2, 0), (2, 0, 3)), max_deviations=3, seed=seed)]
+    jobs += [("leafwrites", c) for c in lw]
     jobs = rng_order(jobs, seed)
     par.pmap(_job, jobs, rep)
     return rep.finish()
@@ -737,8 +835,14 @@ def run(tier, seed):
 
 def replay(payload):
     r = payload["replay"]
+    if "harness" in r:
+        from vt import stages
+
+        return stages.replay(payload)
     if r.get("aliasing"):
         p = aliasing_job((r["mode"], r["format"]))
+    elif "held_object_history" in r:
+        p = held_object_job((r["mode"], r["format"], max(2, len(r["held_object_history"]))))
     elif "one_buffer_history" in r:
         p = buffer_history_job(r["mode"], max(1, len(r["one_buffer_history"])))
     elif "history" in r:
